@@ -2306,6 +2306,10 @@ fn foreach_init(xs: &mut State) -> Xresult {
         Cell::Vector(x) => x.len(),
         other => return Err(Xerr::type_not_supported(other.clone())),
     };
+    if limit == 0 {
+        // nothing to iterate: the loop body never runs, so take the items here
+        xs.pop_data()?;
+    }
     xs.push_data(Cell::from(limit))?;
     xs.push_data(Cell::from(0))
 }
